@@ -1,3 +1,4 @@
+import features
 """Per-property recipes: which bounded instances are model-checked and replayed (direction A),
 which generator families are recorded and trace-validated (direction B), and which rejection
 reasons count for the property."""
@@ -7,6 +8,18 @@ COMMON_ASSUME = [
     "the operational TLA+ model (spec/Parse.tla ...) is my transcription of the code; its fidelity is what conformance tests",
     "TLC, the JSON community module and serde_json are trusted",
 ]
+
+QN = ["shdrs_with_strtab", "shdr_by_name", "section_data", "section_data_as_strtab", "section_data_as_rels",
+      "section_data_as_relas", "section_data_as_notes", "segment_data", "segment_data_as_notes", "symbol_table",
+      "dynamic_symbol_table", "dynamic", "symbol_version_table", "find_common_data"]
+Q_ALL = ["open"] + ["q:" + n for n in QN]
+SQ_ALL = ["sopen"] + ["sq:" + n for n in QN]
+SLICE_FAMILIES_Q = [("readint", 1500, 1), ("parse", 1500, 1), ("table", 500, 1), ("strtab", 400, 1), ("ident", 800, 1),
+                    ("notes", 1000, 1), ("gnuhash", 60, 1), ("sysvhash", 60, 1), ("symver", 60, 1), ("links", 1500, 1),
+                    ("elf", 8, 2), ("elfcorrupt", 25, 4), ("garbage", 150, 1), ("locate", 30, 1)]
+SLICE_FAMILIES_T = [("readint", 20000, 1), ("parse", 20000, 2), ("table", 5000, 2), ("strtab", 4000, 1), ("ident", 8000, 1),
+                    ("notes", 10000, 2), ("gnuhash", 600, 3), ("sysvhash", 600, 3), ("symver", 500, 3), ("links", 15000, 2),
+                    ("elf", 40, 6), ("elfcorrupt", 150, 14), ("garbage", 1500, 2), ("locate", 200, 2)]
 
 RECIPES = {
     "C04": {
@@ -108,5 +121,111 @@ RECIPES = {
                 "offsets up to 2^32-1, starts up to usize::MAX); items <= bytes and <= count are part of the trace spec; a call "
                 "exceeding 5 s CPU is recorded as died",
         "assumptions": COMMON_ASSUME,
+    },
+    "C03": {
+        "level": "model_checking",
+        "families": {"quick": [("elf", 10, 4), ("elfcorrupt", 14, 3)], "thorough": [("elf", 60, 8), ("elfcorrupt", 80, 8)]},
+        "reasons": ("value", "panic"),
+        "tags": ["q:section_data", "q:segment_data", "q:section_data_as_strtab", "q:section_data_as_notes",
+                 "q:segment_data_as_notes", "q:section_data_as_rels", "q:section_data_as_relas", "q:shdrs_with_strtab"],
+        "rule": "B: generated objects (both classes/orders; overlapping, zero-length, EOF-touching, gapped sections; NOBITS; "
+                "SHF_COMPRESSED with fitting / truncated chdr; p_filesz != p_memsz) and structurally corrupted variants; every "
+                "section/segment header as parsed plus mutated copies (offset/size in {0,1,len-1,len,len+1,2^31..2^64-1}) "
+                "through section_data, segment_data and every typed view; each returned slice is projected to its (start,len) "
+                "inside the caller's buffer and compared with the header-designated range computed by the spec",
+        "assumptions": COMMON_ASSUME,
+    },
+    "C05": {
+        "level": "model_checking",
+        "families": {"quick": [("locate", 40, 3), ("elf", 6, 2), ("elfcorrupt", 12, 2)],
+                     "thorough": [("locate", 300, 6), ("elf", 40, 4), ("elfcorrupt", 80, 6)]},
+        "reasons": ("value", "panic"),
+        "tags": ["open", "sopen", "q:shdrs_with_strtab", "sq:shdrs_with_strtab", "q:shdr_by_name", "q:symbol_table",
+                 "q:dynamic_symbol_table", "q:symbol_version_table", "q:dynamic"],
+        "rule": "B: section counts {1..5,0xfeff,0xff00,0xff01,0xff20}, program header counts {0..3,0xfffe,0xffff,0x10000,0x10010}, "
+                "shstrndx below/at/above 0xff00, extended numbering forced on small counts too, shdr[0] sh_size/sh_info/sh_link "
+                "pairwise distinct, tables before/after data, file cut 1..3 bytes short, every wrong entsize, e_shoff/e_phoff=0; "
+                "both parsers; count, first/middle/last entries and the section-name table are compared with the spec",
+        "assumptions": COMMON_ASSUME,
+    },
+    "C07": {
+        "level": "model_checking",
+        "families": {"quick": [("stream", 8, 5)], "thorough": [("stream", 60, 14)]},
+        "reasons": ("value", "panic"),
+        "tags": SQ_ALL,
+        "rule": "B: valid and corrupted objects opened through ElfStream over a scripted reader (full reads, 1-byte reads, random "
+                "chunking, Interrupted and short reads at random I/O calls) and through ElfBytes; the whole accessor sweep twice "
+                "in different orders on one stream object; TLC checks every stream answer against the stream semantics and the "
+                "stream/slice relation (outcome coincidence, identical designated ranges) of C07",
+        "assumptions": COMMON_ASSUME,
+    },
+    "C08": {
+        "level": "model_checking",
+        "families": {"quick": [("sbig", 14, 4), ("stream", 5, 2)], "thorough": [("sbig", 120, 10), ("stream", 40, 4)]},
+        "reasons": ("bound", "lazy", "panic", "died"),
+        "tags": SQ_ALL,
+        "rule": "B: objects whose size/offset/count/link fields claim 2^20..2^64-1 in streams of a few KiB; per call the largest "
+                "single allocation (counting allocator) must be <= 8*len+16KiB and every byte read (instrumented reader) must lie "
+                "in a range the call designates (spec-computed); oversized requests above 1 GiB are refused and recorded as died",
+        "assumptions": COMMON_ASSUME + ["the harness's own bookkeeping allocations are excluded by pausing the counter inside reader callbacks and projections"],
+    },
+    "C17": {
+        "level": "fault_enumeration",
+        "families": {"quick": [("sfault", 3, 4)], "thorough": [("sfaultall", 3, 10), ("sfault", 20, 4)]},
+        "reasons": ("value", "panic"),
+        "tags": SQ_ALL,
+        "rule": "B: per generated object a fault-free pass fixes the accessor script and counts the I/O calls n; then one session "
+                "per sampled (thorough: every) I/O call index x kind {error, premature EOF; short read, Interrupted as benign}, "
+                "some permanent, followed by the whole script again on the same stream; a call that saw a hard fault must return "
+                "an error, later calls must return an error or exactly the fault-free answer; distinct = distinct (file, index, kind)",
+        "assumptions": COMMON_ASSUME,
+    },
+    "C18": {
+        "level": "model_checking",
+        "families": {"quick": [("prefix", 2, 4)], "thorough": [("prefixall", 1, 6), ("prefix", 12, 6)]},
+        "reasons": ("value", "panic"),
+        "tags": Q_ALL,
+        "rule": "B: objects laid out with tables early; every structure boundary +-1 (thorough: every prefix length) and appended "
+                "suffixes; the full query sweep on each prefix; TLC checks (i) the answer equals the spec's semantics on the prefix "
+                "and (ii) the spec's answer on the prefix is an error or equals its answer on the complete file (PrefixRel)",
+        "assumptions": COMMON_ASSUME + ["'appending changes no answer' is read as: non-error answers are unchanged"],
+    },
+    "C20": {
+        "level": "model_checking",
+        "families": {"quick": [("elf", 10, 4), ("elfcorrupt", 8, 2)], "thorough": [("elf", 80, 8), ("elfcorrupt", 60, 6)]},
+        "reasons": ("value", "panic"),
+        "tags": ["q:find_common_data", "q:shdr_by_name", "q:section_data_as_strtab", "q:section_data_as_rels",
+                 "q:section_data_as_relas", "q:section_data_as_notes", "q:segment_data_as_notes", "q:dynamic", "q:symbol_table",
+                 "q:dynamic_symbol_table"],
+        "rule": "B: objects with/without each of .symtab .dynsym .dynamic .hash .gnu.hash PT_DYNAMIC, names that are prefixes / "
+                "extensions / duplicates of each other and a non-UTF-8 name, queried by every name, prefix, extension; every "
+                "typed view on every section/segment type; find_common_data compared field by field (tables by entries, string "
+                "tables by walk, hash tables by lookups) with the targeted accessors' semantics",
+        "assumptions": COMMON_ASSUME,
+    },
+    "C01": {
+        "level": "exploration",
+        "families": {"quick": SLICE_FAMILIES_Q, "thorough": SLICE_FAMILIES_T},
+        "reasons": ("panic", "died"),
+        "tags": None,
+        "rule": "B: every slice-parser generator family (stand-alone readers and ParseAt types at offsets up to usize::MAX, "
+                "tables/iterators with indices near usize::MAX, string tables, idents of every length, notes with alignments "
+                "0..2^64-1, hash tables with corrupted headers, version iterators with counts up to u64::MAX, whole objects with "
+                "every header field set to boundary values, truncations, random bytes) with overflow checks and debug assertions "
+                "on; a panic, abort or >5 s call anywhere is the violation; a case is non-trivial when it reaches a crate call",
+        "assumptions": COMMON_ASSUME + ["observational: absence of panics is shown on the enumerated and sampled inputs only"],
+    },
+    "C06": {
+        "level": "model_checking",
+        "custom": [features.feature_check],
+        "families": {"quick": SLICE_FAMILIES_Q, "thorough": SLICE_FAMILIES_T},
+        "reasons": ("alloc", "value"),
+        "tags": None,
+        "only_reasons_by_tag": {"value": ["feature", "feature_core"]},
+        "rule": "allocation clause: the counting global allocator is armed around every slice-parser call of every generator "
+                "family; TLC rejects any event with allocs > 0.  feature clause: cargo check for all 8 subsets of {alloc,std,"
+                "to_str} + API-surface probes + a -Zbuild-std=core build of the no-default-features crate, judged against "
+                "spec/Features.tla",
+        "assumptions": COMMON_ASSUME + ["the compiler decides the feature clause; TLA+ carries the expectation table"],
     },
 }
